@@ -109,6 +109,6 @@ def cfg_to_desc(cfg, **over):
         prefix=list(cfg['prefix']) if cfg.get('prefix') else None,
         provides=cfg['prov'], requires=cfg['req'],
         multiclient={'port': mcc['port'], 'claim': mcc['claim'], 'grant': mcc['grant'], 'release': mcc['release']}
-        if mcc['on'] else None, file=cfg.get('base', 'M') + '.dzn')
+        if mcc['on'] else None, file=cfg.get('dir', '') + cfg.get('base', 'M') + '.dzn')
     desc.update(over)
     return desc
